@@ -410,10 +410,10 @@ def _listlike(v):
 def unary(ex, op, v):
     if isinstance(v, VInt) and isinstance(op, ast.USub):
         return VInt(-v.t)
-    if isinstance(v, VNode) and isinstance(op, (ast.USub, ast.UAdd, ast.Invert)):
+    if isinstance(v, VNode) and isinstance(op, (ast.USub, ast.UAdd)):
         # +node / -node: the Intervention objects with that name (star True / False)
-        name = {"USub": "iv_minus", "UAdd": "iv_plus", "Invert": "iv_tilde"}[type(op).__name__]
-        f = z3.Function(name, ex.L.Node, ex.L.Node)
+        ex.L.intervene_axioms()
+        f = ex.L.iv_plus if isinstance(op, ast.UAdd) else ex.L.iv_minus
         return VNode(f(v.t))
     raise OutOfSubset(f"unary {type(op).__name__} on {type(v).__name__}")
 
@@ -1157,6 +1157,17 @@ def call_method(ex, obj, name, args, kwargs):
         if name == "copy":
             return obj
         raise OutOfSubset(f"sequence method {name}")
+    if isinstance(obj, VNode) and name == "intervene" and len(args) == 1:
+        # Variable.intervene(S) on a plain variable with a set of Intervention objects (CounterfactualVariable's constructor
+        # rejects an empty set with ValueError and non-Intervention members with TypeError; plain members would be converted)
+        at = L.intervene_axioms()
+        S = ex.as_set(args[0])
+        ex.require(L.And(L.Not(L.is_cf(obj.t)), L.Not(L.is_intervention(obj.t))), "TypeError", "intervene.receiver")
+        ex.require(L.forall(1, lambda i: L.Implies(S.has(i), L.is_intervention(i))), "TypeError", "intervene.members")
+        ex.require(L.exists(1, lambda i: S.has(i)), "ValueError", "intervene.empty")
+        from . import exprs
+        T = exprs.theory(ex)
+        return VNode(at(T.set_to_array(S), obj.t))
     if isinstance(obj, VNode):
         if name == "get_base":
             b_, _, _ = L.var_algebra()
